@@ -1633,6 +1633,108 @@ theorem stepOK_dropBtree {s : State} (h : Inv s) (t c : Nat) (hno : Untouched s 
     · exact stepOK_ddl h hT rfl rfl (idxExact_dropBtree T c (h.idx t T hT)) hno
     · exact StepOK.refl h _
 
+/-! ## batch_insert: rows appended outside any transaction -/
+
+/-- replacing table `t` by one with the same columns and indexes whose row list extends the old one
+    (rows nobody can have named or locked yet) is a step in which every open transaction is a bystander -/
+theorem stepOK_appendRows {s : State} (h : Inv s) {t : Nat} {T T' : Table} (hT : s.tables t = some T)
+    (more : List Row) (hrows : T'.rows = T.rows ++ more) (hnc : T'.ncols = T.ncols)
+    (hh : T'.hashOn = T.hashOn) (hb : T'.btreeOn = T.btreeOn)
+    (hlen : ∀ r ∈ more, r.vals.length = T.ncols) (hidx : IdxExact T') :
+    StepOK s (setTable s t T') none := by
+  have hpre : ∀ i, i < T.rows.length → T'.rows[i]? = T.rows[i]? := by
+    intro i hi
+    rw [hrows, List.getElem?_append_left hi]
+  -- a row of table `t` named by an open transaction lies in the old row list
+  have hnamed : ∀ B xB, s.txs B = some xB → ∀ u ∈ xB.undo, u.table = t → u.row < T.rows.length := by
+    intro B xB hxB u hu hut
+    obtain ⟨l, hl, _⟩ := h.named B xB hxB u hu
+    obtain ⟨T0, hT0, hlt⟩ := h.lockRow _ _ l hl
+    rw [hut, hT] at hT0; cases hT0
+    exact hlt
+  exact {
+    inv := {
+      txLt := h.txLt
+      tabLt := by
+        intro k T'' hT''
+        simp only [setTable_tables] at hT''
+        show k < s.ntables
+        split at hT''
+        · rename_i he; subst he; exact h.tabLt k T hT
+        · exact h.tabLt k T'' hT''
+      fresh := h.fresh
+      lockRow := by
+        intro t' i l hl
+        obtain ⟨T0, hT0, hlt⟩ := h.lockRow t' i l hl
+        simp only [setTable_tables]
+        by_cases ht : t' = t
+        · subst ht
+          rw [hT] at hT0; cases hT0
+          refine ⟨T', by simp, ?_⟩
+          rw [hrows, List.length_append]; omega
+        · exact ⟨T0, by simp [ht, hT0], hlt⟩
+      named := h.named
+      rowLen := by
+        intro k T'' hT''
+        simp only [setTable_tables] at hT''
+        split at hT''
+        · cases hT''
+          intro r hr
+          rw [hrows, List.mem_append] at hr
+          rw [hnc]
+          rcases hr with hr | hr
+          · exact h.rowLen t T hT r hr
+          · exact hlen r hr
+        · exact h.rowLen k T'' hT''
+      idx := by
+        intro k T'' hT''
+        simp only [setTable_tables] at hT''
+        split at hT''
+        · cases hT''; exact hidx
+        · exact h.idx k T'' hT''
+      chain := by
+        intro B xB hxB k T'' i r hT'' hr
+        simp only [setTable_tables] at hT''
+        split at hT''
+        · rename_i he; subst he
+          cases hT''
+          by_cases hi : i < T.rows.length
+          · rw [hpre i hi] at hr
+            rw [hnc, hh, hb]
+            exact h.chain B xB hxB k T i r hT hr
+          · rw [filter_onKey_eq_nil]; · trivial
+            intro u hu hk
+            exact hi (hk.2 ▸ hnamed B xB hxB u (List.mem_reverse.1 hu) hk.1)
+        · exact h.chain B xB hxB k T'' i r hT'' hr }
+    next := Nat.le_refl _
+    gone := fun _ hB _ => hB
+    other := by
+      intro B xB _ hxB
+      right
+      refine ⟨rfl, ?_⟩
+      intro k i hn
+      simp only [rowAt, ncolsAt, setTable_tables]
+      by_cases hk : k = t
+      · subst hk
+        obtain ⟨y, hy, u, hu, hut, hur⟩ := hn
+        have hi : i < T.rows.length := hur ▸ hnamed B y hy u hu hut
+        simp [hT, hpre i hi, hnc]
+      · simp [hk]
+    own := by intro A x he; cases he }
+
+theorem stepOK_batchInsert {s : State} (h : Inv s) (t : Nat) (rows : List (List Val)) :
+    StepOK s (batchInsert s t rows).1 none := by
+  rcases batchInsert_form s t rows with hf | ⟨T, hT, hok, hf⟩
+  · rw [hf]; exact StepOK.refl h _
+  · rw [hf]
+    have f := foldl_insertRow rows T
+    refine stepOK_appendRows h hT (rows.map fun v => { alive := true, vals := v }) f.1 f.2.1 f.2.2.1 f.2.2.2.1 ?_
+      (idxExact_foldl_insertRow rows T (h.idx t T hT))
+    intro r hr
+    obtain ⟨v, hv, rfl⟩ := List.mem_map.1 hr
+    have := List.any_eq_false.1 hok v hv
+    exact rowBad_false_len (by simpa using this)
+
 /-! ## non-transactional statements: `begin; tx_op; commit | rollback` -/
 
 theorem stepOK_finishAuto {p : State × Res} (h : Inv p.1) (I : Nat) : StepOK p.1 (finishAuto p I).1 (some I) := by
@@ -1754,6 +1856,7 @@ theorem step_ok {s : State} (h : Inv s) (op : Op) (hc : stepCalm s op = true) : 
   | insert t v => exact stepOK_insert h t v
   | update t c u => exact stepOK_update h t c u
   | delete t c => exact stepOK_delete h t c
+  | batchInsert t rows => exact stepOK_batchInsert h t rows
   | createTable n nl => exact stepOK_createTable h n nl
   | createIndex t c => exact stepOK_createIndex h t c (untouched_of h hc)
   | createBtree t c => exact stepOK_createBtree h t c (untouched_of h hc)
@@ -2136,6 +2239,13 @@ theorem lr_step {s : State} (h : LR s) (op : Op) : LR (step s op).1 := by
     all_goals first
       | exact h
       | exact lr_finishAuto (lr_txDelete (lr_begin h) _ _ _) _
+  | batchInsert t rows =>
+    rcases batchInsert_form s t rows with hf | ⟨T, hT, _, hf⟩
+    · show LR (batchInsert s t rows).1; rw [hf]; exact h
+    · show LR (batchInsert s t rows).1
+      rw [hf]
+      refine lr_of_ext h (ext_setTable hT ?_) (fun _ _ _ hl => Or.inl hl)
+      rw [(foldl_insertRow rows T).1, List.length_append]; omega
   | createTable n nl =>
     have hnone : s.tables s.ntables = none := by
       cases hT : s.tables s.ntables with
